@@ -25,7 +25,7 @@ func storeSetRule(o *Ob) {
 	o.Check(fpOK, "set-write-shape", "Set must store the alert under its own fingerprint", mu)
 	isW := IsInstr(mu)
 	dest := L("recv.destroyed", true)
-	limOn := L("(0 < recv.perAlertLimit)", true)
+	limOn := L("(recv.perAlertLimit < 1)", false)
 	up := LRe(`\(\*am/limit\.Bucket\[V\]\)\.Upsert\(.*, \(\*model\.Alert\)\.Fingerprint\(p0(\.Alert)?\), p0(\.Alert)?\.EndsAt\)`, true)
 	o.Table(fn, "Set", []Row{
 		{Name: "store destroyed", Assume: A(dest), Ret: [][]string{Vals("am/store.ErrDestroyed")}, Never: []func(ssa.Instruction) bool{isW}},
@@ -194,7 +194,7 @@ func init() {
 		if o.Check(ginc != nil, "group-limit-counter", "a refused aggregation group is no longer counted", nil) {
 			o.Site(ginc, "aggrGroupLimitReached++")
 			over := LRe(`\(conv:int\(\(\*sync/atomic\.Int(32|64)\)\.Load\(recv\.aggrGroupsNum\)\) < invoke:am/dispatch\.Limits\.MaxNumberOfAggregationGroups\(recv\.limits\)\)`, false)
-			on := LRe(`\(0 < invoke:am/dispatch\.Limits\.MaxNumberOfAggregationGroups\(recv\.limits\)\)`, true)
+			on := LRe(`\(invoke:am/dispatch\.Limits\.MaxNumberOfAggregationGroups\(recv\.limits\) < 1\)`, false)
 			o.Guarded(ginc, "group-limit-guard1", "counting a group-limit refusal", over)
 			o.Guarded(ginc, "group-limit-guard2", "counting a group-limit refusal", on)
 			// refusal ⇒ no group created
@@ -228,11 +228,11 @@ func init() {
 		sz := o.One(e.Calls(cs, "proto.Size"), "size", "the size check must measure the encoded silence", cs)
 		o.Check(e.Arg(sz, 0) == "p0", "size-arg", "the measured message must be the silence to store", sz)
 		tooBig := LRe(`\(dyn\(fn=recv\.limits\.MaxSilenceSizeBytes\) < proto\.Size\(p0\)\)`, true)
-		on := L("(0 < dyn(fn=recv.limits.MaxSilenceSizeBytes))", true)
+		on := L("(dyn(fn=recv.limits.MaxSilenceSizeBytes) < 1)", false)
 		conf := L("(recv.limits.MaxSilenceSizeBytes == nil)", false)
 		o.Table(cs, "size", []Row{
 			{Name: "not configured", Assume: A(conf.Neg()), Ret: [][]string{Vals("nil")}},
-			{Name: "configured, too big", Assume: A(conf, on, tooBig), Ret: [][]string{Vals("~fmt\\.Errorf\\(.*")}},
+			{Name: "configured, too big", Assume: A(conf, on, tooBig), Ret: [][]string{Vals(anyErr)}},
 			{Name: "configured, fits", Assume: A(conf, on, tooBig.Neg()), Ret: [][]string{Vals("nil")}},
 		})
 		o.MinSites(4)
@@ -292,10 +292,10 @@ func init() {
 		var rel *ssa.Defer
 		for _, in := range AllInstrs(fn) {
 			if d, ok := in.(*ssa.Defer); ok {
-				if mc, ok := d.Call.Value.(*ssa.MakeClosure); ok {
-					lf := mc.Fn.(*ssa.Function)
-					for _, x := range AllInstrs(lf) {
-						if u, ok := x.(*ssa.UnOp); ok && u.Op.String() == "<-" && strings.Contains(e.X(lf, u.X), "inFlightSem") {
+				// the deferred function (a literal or a method) receives from the semaphore
+				if lf := d.Call.StaticCallee(); lf != nil {
+					for _, x := range e.DeepInstrs(lf, 2) {
+						if u, ok := x.(*ssa.UnOp); ok && u.Op.String() == "<-" && strings.Contains(e.X(x.Parent(), u.X), "inFlightSem") {
 							rel = d
 						}
 					}
